@@ -484,7 +484,8 @@ def oracle_c13(row, post):
 
 
 # ---------------------------------------------------------------------------------- case generation (C13)
-PATTERNS = ["%04v_%m", "%04v_%m", "%04v_%m", "%v", "%06v-%m", "v%v_%m", "%m_%03v", "%m"]
+PATTERNS = ["%04v_%m", "%04v_%m", "%04v_%m", "%04v_%m", "%v", "%06v-%m", "v%v_%m", "%m_%03v", "%m",
+            "%%v_%m", "%05v%", "%0x_%v-%m.", "%012v.%m.", "__%m__%0v", "%00v_%m_%"]
 MESSAGES = ["init", "Add Users!", "x  y", "second", "tweak é", "UPPER case-2", "a/b.c", "more", "again", "again"]
 
 
